@@ -93,7 +93,15 @@ func (vc *VC) Generate() (err error) {
 		}
 	}
 	vc.axioms()
-	if hk, _, ok := vc.ghostKey("held"); ok {
+	entersLocked := false
+	if vc.fc != nil {
+		for _, c := range vc.fc.Requires {
+			if strings.Contains(c.Text, "held(") {
+				entersLocked = true // "requires held(m)": a helper that is called under its caller's lock
+			}
+		}
+	}
+	if hk, _, ok := vc.ghostKey("held"); ok && !entersLocked {
 		// no function is entered while holding a mutex that it locks itself (that would be a self-deadlock):
 		// its own lock operations start from an empty lock set
 		vc.assert(fmt.Sprintf("(= %s ((as const (Array Int Bool)) false))", vc.st.get(hk)))
